@@ -8,7 +8,8 @@
      * no applicable rule: the authorizer says Default and the chain falls through to the
        default policy                                                           [spec_chain]
    No proofs about the model here (only facts about the reference itself). *)
-From Verif Require Import Base.Prelude ACL.Model.
+From Verif Require Import Base.Prelude.
+From Verif Require Import ACL.Model.
 
 (* ---------------------------------------------------------------- precedence *)
 
